@@ -192,6 +192,56 @@ def oracle_srs(case, R):
         R.label("second_call")
 
 
+def _peak_with_limit(resp, limit=np.inf):
+    """a caller's peak function that refuses responses beyond a limit (documented: `peak` may be a function)"""
+    m = abs(resp).max(axis=0)
+    if np.any(m > limit):
+        raise ValueError("response beyond the qualification limit")
+    return m
+
+
+def oracle_srs_error(case, R):
+    """an error in one per-frequency task reaches the caller in both modes: what the serial run refuses, the
+    parallel run does not hand out as a result"""
+    import functools
+    from pyyeti import srs
+    sig = make_signal(case)
+    sr = case["sr"]
+    freq = np.array(case["freq"], float)
+    kw = dict(ic=case["ic"], stype=case["stype"], time=case["time"], getresp=case["getresp"])
+    sh = np.atleast_2d(np.asarray(srs.srs(sig, sr, freq, case["Q"], parallel="no", peak="abs",
+                                           **dict(kw, getresp=False))))
+    per_f = np.abs(sh).reshape(len(freq), -1).max(axis=1)
+    if per_f.max() <= per_f.min() * (1 + 1e-9):
+        R.label("skipped:all_frequencies_alike")
+        return
+    limit = float(np.sort(per_f)[len(per_f) // 2 - (len(per_f) % 2 == 0)]) * (1 + 1e-9) if len(per_f) > 1 else 0.0
+    limit = max(limit, per_f.min() * (1 + 1e-9))
+    pk = functools.partial(_peak_with_limit, limit=limit)
+    nbad = int((per_f > limit).sum())
+    R.label(f"stype={case['stype']}", f"ic={case['ic']}", f"getresp={case['getresp']}")
+    R.nontrivial(0 < nbad < len(freq))
+
+    def run(**par):
+        try:
+            return ("ok", srs.srs(sig, sr, freq, case["Q"], peak=pk, **par, **kw))
+        except Exception as ex:           # noqa: BLE001 - which exception is the library's business
+            return ("raised", type(ex).__name__)
+
+    a = run(parallel="no")
+    b = run(parallel="yes", maxcpu=case["maxcpu"])
+    R.check(a[0] == "raised", "harness_serial_run_did_not_raise", f"{nbad} of {len(freq)} frequencies beyond the limit")
+    R.check(b[0] == a[0], "srs_parallel_swallows_worker_error",
+            f"serial: {a[0]} ({a[1] if a[0] == 'raised' else 'result'}), parallel: {b[0]}; {nbad} of {len(freq)} "
+            f"per-frequency tasks fail; getresp={case['getresp']} ic={case['ic']}")
+    # and a limit nobody reaches changes nothing: same bits as the built-in 'abs'
+    ok_pk = functools.partial(_peak_with_limit, limit=float(per_f.max()) * 2 + 1)
+    c = srs.srs(sig, sr, freq, case["Q"], peak=ok_pk, parallel="yes", maxcpu=case["maxcpu"], **kw)
+    d = srs.srs(sig, sr, freq, case["Q"], peak="abs", parallel="no", **kw)
+    ok, why = same(d, c)
+    R.check(ok, "srs_parallel_peak_function_differs_from_serial_abs", why)
+
+
 def oracle_fdepsd(case, R):
     from pyyeti import fdepsd
     sig = make_signal(dict(case, ncol=1, onedim=True))
@@ -219,6 +269,12 @@ def oracle_fdepsd(case, R):
         ok, why = same(getattr(ser, k), getattr(par, k))
         R.check(ok, "fdepsd_parallel_differs_from_serial", f"field {k}: {why}; completion order={order}")
     R.check(par.parallel == "yes" and ser.parallel == "no", "fdepsd_parallel_flag")
+    # an earlier result is not touched by a later parallel call of the same size on other data
+    sig2 = -0.5 * np.asarray(sig, float)[::-1].copy()
+    fdepsd.fdepsd(sig2, sr, freq, case["Q"], parallel="yes", maxcpu=case["maxcpu"], **kw)
+    for k in sorted(keys_s & keys_p):
+        ok, why = same(getattr(ser, k), getattr(par, k))
+        R.check(ok, "fdepsd_parallel_result_changed_by_later_call", f"field {k}: {why}")
 
 
 STYPES = ["absacce", "relacce", "relvelo", "reldisp", "pvelo", "pacce"]
@@ -283,5 +339,6 @@ def enum_grid(shard, nshards, tier):
 PARTS = [
     Part("grid", oracle_srs, enum=enum_grid, quick=(16, None), thorough=(16, None), exhaustive=True),
     Part("srs", oracle_srs, strategy=srs_cases, quick=(8, 12), thorough=(16, 120)),
+    Part("srs_error", oracle_srs_error, strategy=srs_cases, quick=(4, 6), thorough=(8, 40)),
     Part("fdepsd", oracle_fdepsd, strategy=fde_cases, quick=(4, 4), thorough=(16, 30)),
 ]
